@@ -104,7 +104,60 @@ def retag(entries, rng, pool, p):
     return out
 
 
-def gen_dictionary(rng, allow_float=True, overlap=False):
+def level_fields(entries):
+    return [(e[1], e[2]) for e in entries if e[0] == 'f' and e[1] not in fc.STD_TAGS]
+
+
+def share_tags(rng, entries, outer, p):
+    """let groups REUSE tags of what encloses them: a field entry of a group (its first one included) takes over tag and type of a
+    field of the enclosing segment or of an outer group (the library's own test dictionary: body fields 1, 2 and group 22[1, 2]);
+    tags of one level stay distinct, count tags stay unique"""
+    out = []
+    here = level_fields(entries)
+    for e in entries:
+        if e[0] == 'f':
+            out.append(e)
+            continue
+        sub = list(e[3])
+        avail = list(outer) + here
+        used = {x[1] for x in sub}
+        for i, x in enumerate(sub):
+            cands = [c for c in avail if c[0] not in used]
+            if x[0] == 'f' and cands and rng.random() < (p / 2 if i == 0 else p):
+                t, ty = rng.choice(cands)
+                used.discard(x[1])
+                used.add(t)
+                sub[i] = ('f', t, ty, x[3])
+        out.append(('g', e[1], e[2], share_tags(rng, sub, avail, p)))
+    return out
+
+
+def favour_follow(rng, d, a):
+    """put the wire where the COUNT alone ends a group: in a plain segment move a field whose tag the group uses too directly behind
+    that group (assignment order is wire order there) and let the group's last instance hold that tag"""
+    for s in ('hdr', 'body', 'trl'):
+        seg, entries = a[s], d[s]
+        groups = [(i, fc.find_entry(entries, t)) for i, (t, v) in enumerate(seg) if v[0] == 'grp' and v[1]]
+        rng.shuffle(groups)
+        for gi, g in groups:
+            sub_tags = {x[1]: x for x in g[3] if x[0] == 'f'}
+            fields = [j for j, (t, v) in enumerate(seg) if v[0] != 'grp' and t in sub_tags and t != 35]
+            if not fields or rng.random() < 0.3:
+                continue
+            fj = rng.choice(fields)
+            item = seg[fj]
+            gt = seg[gi][0]
+            del seg[fj]
+            gi2 = next(i for i, (t, _) in enumerate(seg) if t == gt)
+            seg.insert(gi2 + 1, item)
+            last = seg[gi2][1][1][-1]
+            if item[0] not in [t for t, _ in last] and rng.random() < 0.85:
+                last.append((item[0], fc.gen_prim(rng, sub_tags[item[0]][2])))
+            break
+    return a
+
+
+def gen_dictionary(rng, allow_float=True, overlap=False, shared=False):
     pool = fc.TagPool(rng)
     depth = rng.choice([0, 1, 1, 2, 2, 3])
     rest = fc.gen_entries(rng, pool, rng.randint(0, 3), min(depth, 1), allow_float)
@@ -128,8 +181,14 @@ def gen_dictionary(rng, allow_float=True, overlap=False):
         types.add(''.join(rng.choice(TYPE_CHARS) for _ in range(rng.randint(1, 2))))
     mdefs = []
     for ty in sorted(types):
-        body = fc.gen_entries(rng, pool, rng.randint(0, 6), depth, allow_float)
+        body = fc.gen_entries(rng, pool, rng.randint(0, 6) if not shared else rng.randint(2, 6), depth if not shared else max(depth, 1), allow_float)
         mdefs.append({'name': fc.fresh_name(), 'type': ty, 'hdr': hdr, 'body': body, 'trl': trl})
+    if shared:
+        # inside the quantifier ("header, body and trailer with disjoint tags, repeating groups nested to any depth"): groups that reuse
+        # tags of their enclosing segment / outer group.  Header and trailer are shared by the message classes: rewritten once.
+        hdr2, trl2 = share_tags(rng, hdr, [], 0.5), share_tags(rng, trl, [], 0.5)
+        for d in mdefs:
+            d['hdr'], d['trl'], d['body'] = hdr2, trl2, share_tags(rng, d['body'], [], 0.5)
     if overlap:
         # outside the quantifier: a tag used at two different levels (like tests/fix_messages.py: body field 1 and
         # group field 1); tags inside one level stay distinct.  Compared for model/implementation agreement only.
@@ -443,12 +502,83 @@ def valid_values(entries, seg):
     return True
 
 
+def level_distinct(entries):
+    tags = [e[1] for e in entries]
+    return len(set(tags)) == len(tags) and all(level_distinct(e[3]) for e in entries if e[0] == 'g')
+
+
+def tag_uses(entries, out):
+    for e in entries:
+        out.setdefault(e[1], []).append(('g',) if e[0] == 'g' else ('f', e[2]))
+        if e[0] == 'g':
+            tag_uses(e[3], out)
+    return out
+
+
+def dict_ok(d):
+    """the dictionaries of the statement: header, body and trailer with disjoint tags (all tags, nested ones included); inside a
+    segment the entries of ONE level have distinct tags, a group may reuse tags of its enclosing segment / outer groups / other
+    groups; a tag means the same field (same type) wherever it occurs and a group's count tag occurs once"""
+    segs = [set(fc.all_tags(d[s])) for s in ('hdr', 'body', 'trl')]
+    if segs[0] & segs[1] or segs[0] & segs[2] or segs[1] & segs[2]:
+        return False
+    if not all(level_distinct(d[s]) for s in ('hdr', 'body', 'trl')):
+        return False
+    for uses in tag_uses(d['hdr'] + d['body'] + d['trl'], {}).values():
+        if len(set(uses)) != 1 or (uses[0] == ('g',) and len(uses) != 1):
+            return False
+    return True
+
+
+def shares_tags(d):
+    tags = fc.all_tags(d['hdr'] + d['body'] + d['trl'])
+    return len(set(tags)) != len(tags)
+
+
+def count_ends_groups(entries, seg, follow, dictionary_order, hits=None):
+    """Is the wire unambiguous BY THE COUNT?  A group instance on the wire takes fields as long as the next tag is one of its group's
+    entries and not yet in the instance.  The announced count says where the group ends - but only if no instance can take a field
+    that is not its own: for every instance, the tag that directly follows its last field (`follow`: the first field of the next
+    instance, or whatever follows the group in the enclosing instance / segment / the next segment) is either no entry of that group
+    or already held by the instance.  With pairwise distinct tags this always holds; with reused tags it is the condition under which
+    the statement's round trip is meaningful.  hits: collects ('count-only', depth) where ONLY the count ends the group (the following
+    tag is an entry of the group, held by the last instance)."""
+    order = [(e[1], dict(seg)[e[1]]) for e in entries if e[1] in dict(seg)] if dictionary_order else seg
+    level = {e[1] for e in entries}
+    keys = {t for t, _ in order}
+    if follow is not None and follow in level and follow not in keys:
+        return False
+    for i, (t, v) in enumerate(order):
+        if v[0] != 'grp':
+            continue
+        nxt = order[i + 1][0] if i + 1 < len(order) else follow
+        e = fc.find_entry(entries, t)
+        if e is None or e[0] != 'g':
+            return False
+        for j, inst in enumerate(v[1]):
+            f = e[3][0][1] if j + 1 < len(v[1]) else nxt
+            if not count_ends_groups(e[3], inst, f, True, hits):
+                return False
+            if hits is not None and j + 1 == len(v[1]) and f is not None and f in {x[1] for x in e[3]}:
+                hits.append(t)
+    return True
+
+
+def counted_ok(d, m, hits=None):
+    segs = [(s, m[s]) for s in ('hdr', 'body', 'trl')]
+    firsts = [(m[s][0][0] if m[s] else None) for s, _ in segs]
+    for i, (s, seg) in enumerate(segs):
+        follow = next((f for f in firsts[i + 1:] if f is not None), None)
+        if not count_ends_groups(d[s], seg, follow, False, hits):
+            return False
+    return True
+
+
 def in_domain(d, m):
     """the property's quantifier, decided without the library and without the model"""
-    tags = fc.all_tags(d['hdr'] + d['body'] + d['trl'])
-    if len(set(tags)) != len(tags):
+    if not dict_ok(d):
         return False
-    if not py_wf(d, m) or not all(valid_values(d[s], m[s]) for s in ('hdr', 'body', 'trl')):
+    if not py_wf(d, m) or not counted_ok(d, m) or not all(valid_values(d[s], m[s]) for s in ('hdr', 'body', 'trl')):
         return False
     # the header holds MsgType = the class's type, at any position (since /repo a2cfe01 the lookup is anchored at a field start:
     # Props/C13Anchor.lean `C13_statement_any_order`; fields in front of it may have tags ending in 35 and values containing `35=`)
@@ -539,8 +669,7 @@ def py_wf_seg(entries, seg, group):
 
 def py_wf(d, m):
     """harness-side copy of the well-formedness of the statement: known distinct keys, every instance has its first field"""
-    tags = fc.all_tags(d['hdr'] + d['body'] + d['trl'])
-    return len(set(tags)) == len(tags) and all(py_wf_seg(d[s], m[s], False) for s in ('hdr', 'body', 'trl'))
+    return dict_ok(d) and all(py_wf_seg(d[s], m[s], False) for s in ('hdr', 'body', 'trl'))
 
 
 def shrink_candidates(d, m):
@@ -720,12 +849,15 @@ def rename(mdefs, d):
 
 
 def gen_entry(rng, i, n_msg, n_mal, n_dec):
-    mdefs = gen_dictionary(rng, allow_float=(i % 3 != 2), overlap=(i % 11 == 10))
+    shared = i % 4 == 1
+    mdefs = gen_dictionary(rng, allow_float=(i % 3 != 2), overlap=(i % 11 == 10), shared=shared)
     entry = {'mdefs': mdefs, 'wf': [], 'mal': [], 'dec': []}
     seeds = []
     for _ in range(n_msg):
         d = rng.choice(mdefs)
         a = gen_assignments(rng, d)
+        if shared and rng.random() < 0.7:
+            a = favour_follow(rng, d, a)
         m = {s: built_seg(a[s]) for s in a}
         entry['wf'].append((d, a, m))
         seeds.append(fc.ref_encode(d, m))
@@ -788,8 +920,13 @@ def execute_plan(ctx, rng, plan):
             for s_ in ('hdr', 'body', 'trl'):
                 for cls_ in text_classes(m[s_]):
                     ctx.count(f'wf:text:{s_}:{cls_}')
+            if shares_tags(d):
+                hits = []
+                ctx.count('wf:reused-tags:' + ('in-domain' if dom else 'out-of-domain'))
+                if dom and counted_ok(d, m, hits) and hits:
+                    ctx.count('wf:reused-tags:only-the-count-ends-a-group')
             if not dom:
-                ctx.count('wf:out-of-domain(a tag used at two levels, or no MsgType in the header)')
+                ctx.count('wf:out-of-domain(segments not disjoint, an instance could take a field that follows its group, or no MsgType in the header)')
             got = impl_build(built, d, a, rng)
             rep = rt_replay_dict(mdefs, d, m)
             if got[0] != 'ok':
@@ -923,7 +1060,10 @@ def run(ctx):
     n_mal = 4 if quick else 6
     n_dec = 12 if quick else 20
     ctx.cov['rule'] = ('random dictionaries (header with MsgType + 0-3 entries, 1-3 message classes with 0-6 body entries, trailer 0-3; '
-                       'types int/float/bool/char/string; groups nested to depth 3; tags 1-5 digits, pairwise distinct) x messages '
+                       'types int/float/bool/char/string; groups nested to depth 3; tags 1-5 digits, pairwise distinct - and, every fourth '
+                       'dictionary, groups that REUSE tags of their enclosing segment / outer group / first field of the outer group, with '
+                       'the same-tag field assigned directly behind the group, judged by the oracle whenever the count alone ends every group '
+                       '(no instance can take the field that follows it)) x messages '
                        '(optional subsets, 0..7 instances, shuffled assignment order, re-assignment, negative/huge ints, repr floats, '
                        "'=' inside strings, empty strings; text values over the whole FIX value alphabet: LF, CR, CRLF, TAB, NUL and the other "
                        "controls, DEL, blanks at either end, `35=` inside values — in header, body, trailer and group instances; headers with "
